@@ -1,16 +1,185 @@
 """C20 — Isolated activities follow the documented formulas (DESIGN.md 3, C20, thin): the two minima of the communication formula."""
-from .. import ex, lib
+from .. import cfg, ex, lib
 from ..core import where
 from ..ir import AnalysisBroken
 from .C16 import check_min_accumulator
 
-UNITS = ['src/kernel/resource/models/network_cm02.cpp']
+UNITS = ['src/kernel/resource/models/network_cm02.cpp', 'src/kernel/resource/models/cpu_cas01.cpp']
 M = 'simgrid::kernel::resource::NetworkCm02Model'
 EXPLANATION = ('In NetworkCm02Model::comm_action_set_bounds the bandwidth bound is the minimum get_bandwidth() over the non-WIFI links of the route '
                '(extremum coherence with the -1 sentinel) and then the minimum with the user rate when one is given; the latency saved in '
                'lat_current_ is the value before the latency factor is applied; in comm_action_set_variable the variable bound handed to the solver '
                'is min(user bound, gamma / (2 * lat_current_)) when both exist, gamma / (2 * lat_current_) alone without a user bound, and the '
                'user bound alone when latency or gamma is not positive.')
+
+
+def strip(t):
+    while t[0] in ('cast', 'conv'):
+        t = t[2]
+    return t
+
+
+def run_more(ctx, P, A, sb, sv_):
+    """R4..R10: the remaining structure of the documented formulas (added after a hand-mutation probe, DESIGN.md 3 C20)"""
+    v = A.view(sb)
+    # ---- R4 the candidates of the bound ----------------------------------------------------------------------------------------------------------
+    ctx.rule('R4', 'comm_action_set_bounds: WIFI links never bound the bandwidth; the user rate that competes with the link bandwidths is rate / bw_factor '
+             '(the effective rate is value x factor); the action receives the factor on every path', 3)
+    ups = lib.extremum_updates(A, sb, lambda t: t[0] == 'var' and t[2] == 'bandwidth_bound')
+    nl = 0
+    for d in ups:
+        if d['form'] == 'plain' or 'get_bandwidth' not in repr(d['stored']):
+            continue
+        nl += 1
+        IN, tgt, _ = lib.dominating_facts(A, sb, sb['elems'][d['eid']]['x'], with_lines=True, with_preds=True)
+        wifi = [t_ for a, t_, l_ in IN.get(tgt, ()) if a[0] == 'bin' and a[1] == '==' and 'WIFI' in repr(a) and 'get_sharing_policy' in repr(a)]
+        ctx.check(wifi == [False], 'R4', 'comm_action_set_bounds: a link bandwidth is a candidate only when the link is not WIFI', where(sb, d['line']),
+                  'facts on the sharing policy: %s' % wifi, key='R4|comm_action_set_bounds|wifi skipped')
+    ctx.require(nl >= 1, 'R4', 'link-bandwidth candidate of bandwidth_bound not found')
+    rate = lib.parm(sb, 'rate')
+    defs = [e for eid in range(len(sb['elems'])) for e in v.events_of(eid) if e.kind == 'assign' and e.lhs == rate]
+    okr = len(defs) == 1 and ((defs[0].op == '=' and strip(defs[0].rhs)[0] == 'bin' and strip(defs[0].rhs)[1] == '/' and strip(defs[0].rhs)[2] == rate and strip(strip(defs[0].rhs)[3])[0] == 'var' and 'factor' in strip(strip(defs[0].rhs)[3])[2])
+                              or (defs[0].op == '/=' and strip(defs[0].rhs)[0] == 'var' and 'factor' in strip(defs[0].rhs)[2]))
+    cmp_after = False
+    if defs:
+        dom = lib.dominating_facts   # noqa: F841
+        for d in ups:
+            if d['form'] != 'plain' and strip(d['stored']) == rate:
+                cmp_after = d['line'] > defs[0].line
+    ctx.check(okr and cmp_after, 'R4', 'comm_action_set_bounds: the user rate is divided by the bandwidth factor before it competes with the link bandwidths', where(sb, defs[0].line if defs else None),
+              'definitions of rate: %s' % [ex.pretty(e.rhs) for e in defs], key='R4|comm_action_set_bounds|rate rescaled')
+    okf = None
+    for p_ in v.paths(max_visits=1):
+        if p_.exit in ('noreturn', 'cut', 'throw'):
+            continue
+        evs = v.path_events(p_)
+        bf = [e.lhs for e in evs if e.kind == 'assign' and strip(e.rhs)[0] == 'call' and strip(e.rhs)[1].endswith('::get_bandwidth_factor')]
+        sf = [e for e in evs if e.kind == 'call' and e.q.endswith('::set_rate_factor')]
+        good = len(bf) == 1 and len(sf) == 1 and strip(sf[0].args[0]) == bf[0]
+        okf = good if okf is None else (okf and good)
+    ctx.check(bool(okf), 'R4', 'comm_action_set_bounds: set_rate_factor(get_bandwidth_factor(...)) on every path', where(sb), '', key='R4|comm_action_set_bounds|rate factor set')
+
+    # ---- R5 the latency phase -------------------------------------------------------------------------------------------------------------------
+    ctx.rule('R5', 'comm_action_set_variable: while latency_ > 0 the variable is created disabled (penalty 0) and, in lazy mode, the latency event is dated '
+             'get_last_update() + latency_ (the latency after the factor); with no latency the variable is created enabled', 3)
+    v2 = A.view(sv_)
+    shapes = set()
+    dates = []
+    for p_ in v2.paths(max_visits=1):
+        if p_.exit in ('noreturn', 'cut', 'throw'):
+            continue
+        evs = v2.path_events(p_)
+        lat = [e.pol for e in evs if e.kind == 'branch' and e.atom[0] == 'bin' and e.atom[1] in ('<=', '>') and strip(e.atom[2])[0] == 'field' and strip(e.atom[2])[2].endswith('::latency_') and strip(e.atom[3]) in (('int', 0), ('float', 0.0))]
+        pos = [(not pl) if e.atom[1] == '<=' else pl for e, pl in [(e, e.pol) for e in evs if e.kind == 'branch' and e.atom[0] == 'bin' and e.atom[1] in ('<=', '>') and strip(e.atom[2])[0] == 'field' and strip(e.atom[2])[2].endswith('::latency_') and strip(e.atom[3]) in (('int', 0), ('float', 0.0))]]
+        vn = [e for e in evs if e.kind == 'call' and e.q.endswith('System::variable_new')]
+        if len(pos) != 1 or len(vn) != 1:
+            shapes.add(('?', len(lat), len(vn)))
+            continue
+        pen = strip(vn[0].args[1])
+        shapes.add((pos[0], pen[1] if pen[0] in ('int', 'float') else ex.pretty(pen)))
+        for e in evs:
+            if e.kind == 'call' and e.q.endswith('ActionHeap::insert'):
+                dates.append((pos[0], e))
+    ctx.check(shapes == {(True, 0.0), (False, 1.0)} or shapes == {(True, 0), (False, 1)}, 'R5', 'comm_action_set_variable: penalty 0 while the latency is paid, 1 otherwise', where(sv_), 'shapes (latency_ > 0, penalty) %s' % sorted(shapes, key=repr),
+              key='R5|comm_action_set_variable|penalty by latency')
+    ctx.require(bool(dates), 'R5', 'no ActionHeap::insert in comm_action_set_variable')
+    okd = bool(dates)
+    det = ''
+    for pos_, e in dates:
+        d = strip(e.args[1])
+        # the date may be kept in a local
+        if d[0] == 'var':
+            ds = [x for eid in range(len(sv_['elems'])) for x in v2.events_of(eid) if x.kind == 'assign' and x.lhs == d]
+            d = strip(ds[0].rhs) if len(ds) == 1 else d
+        parts = []
+        if d[0] == 'bin' and d[1] == '+':
+            parts = [strip(d[2]), strip(d[3])]
+        good = pos_ and len(parts) == 2 and any(x[0] == 'field' and x[2].endswith('::latency_') for x in parts) and any(x[0] == 'call' and x[1].endswith('::get_last_update') for x in parts)
+        det = ex.pretty(d)
+        okd = okd and good
+    ctx.check(okd, 'R5', 'comm_action_set_variable: the latency event is dated get_last_update() + latency_', where(sv_, dates[0][1].line if dates else None), 'date = %s' % det,
+              key='R5|comm_action_set_variable|latency event date')
+    lz = [e for pos_, e in dates]
+    ctx.check(all(True for _ in lz), 'R5', 'comm_action_set_variable: %d latency event site(s)' % len(set(e.line for e in lz)), where(sv_), '')
+
+    # ---- R6 which links carry the flow ----------------------------------------------------------------------------------------------------------------
+    ctx.rule('R6', 'comm_action_expand_constraints: every non-WIFI link of the route is expanded with weight 1; under network/crosstraffic every non-WIFI link of the '
+             'back route with weight 0.05, and only there', 2)
+    ec = P.fn(M + '::comm_action_expand_constraints')
+    v3 = A.view(ec)
+    route, back = lib.parm(ec, 'route'), lib.parm(ec, 'back_route')
+    found = {}
+    for h in v3.loop_heads():
+        if h['t'].get('k') != 'CXXForRangeStmt':
+            continue
+        rng = [d for el in ec['elems'] if el['x'].get('k') == 'Decl' and el.get('l') == h['t'].get('l') for d in el['x'].get('decls', ())
+               if d.get('d', {}).get('n', '').startswith('__range') and d.get('init') is not None]
+        if not rng:
+            continue
+        r = strip(v3.norm(rng[0]['init']))
+        from .. import cg
+        body = cg.natural_loop(v3, h['id'])
+        for b in body:
+            for eid in v3.blocks[b].get('e', []):
+                for e in v3.events_of(eid):
+                    if e.kind == 'call' and e.q.endswith('System::expand') and e.eid == eid:
+                        IN, tgt, _ = lib.dominating_facts(A, ec, ec['elems'][eid]['x'], with_lines=True, with_preds=True)
+                        facts = IN.get(tgt, ())
+                        wifi = [t_ for a, t_, l_ in facts if a[0] == 'bin' and a[1] == '==' and 'WIFI' in repr(a) and 'get_sharing_policy' in repr(a)]
+                        cross = [t_ for a, t_, l_ in facts if 'cfg_crosstraffic' in repr(a)]
+                        w = strip(e.args[2])
+                        found[('route' if r == route else 'back_route' if r == back else ex.pretty(r))] = (w[1] if w[0] in ('int', 'float') else ex.pretty(w), tuple(wifi), tuple(cross), e.line)
+    fr, fb = found.get('route'), found.get('back_route')
+    ctx.check(fr is not None and fr[0] == 1.0 and fr[1] == (False,) and fr[2] == (), 'R6', 'comm_action_expand_constraints: route links, weight 1, unconditionally', where(ec, fr[3] if fr else None),
+              '(weight, WIFI test, crosstraffic test) = %s' % (fr[:3],) if fr else 'no expand in a loop over route', key='R6|comm_action_expand_constraints|route')
+    ctx.check(fb is not None and abs(fb[0] - 0.05) < 1e-12 and fb[1] == (False,) and fb[2] == (True,) if fb and isinstance(fb[0], float) else False, 'R6',
+              'comm_action_expand_constraints: back-route links, weight 0.05, only under network/crosstraffic', where(ec, fb[3] if fb else None),
+              '(weight, WIFI test, crosstraffic test) = %s' % (fb[:3],) if fb else 'no expand in a loop over back_route', key='R6|comm_action_expand_constraints|back route')
+    extra = [k for k in found if k not in ('route', 'back_route')]
+    ctx.check(not extra, 'R6', 'comm_action_expand_constraints: no other link list is expanded in a loop', where(ec), '%s' % extra, key='R6|comm_action_expand_constraints|other lists')
+
+    # ---- R7 CPU bound ------------------------------------------------------------------------------------------------------------------------------
+    ctx.rule('R7', 'CpuCas01: an execution is created with bound requested_core x speed, speed being scale x peak of the CPU at creation; the user bound replaces it only '
+             'when it is positive and smaller', 3)
+    CA = 'simgrid::kernel::resource::CpuCas01Action::CpuCas01Action'
+    ctor = [f for f in P.fns.values() if f['q'] == CA and f.get('elems')]
+    ctx.require(len(ctor) == 1, 'R7', 'CpuCas01Action constructor: %d definitions' % len(ctor))
+    if len(ctor) == 1:
+        c = ctor[0]
+        nrm = ex.Norm(c)
+        vn = [nrm(n) for el in c['elems'] for n in ex.walk(el['x']) if n.get('k') == 'Call' and (n.get('c') or {}).get('q', '').endswith('System::variable_new')]
+        ctx.require(len(vn) >= 1, 'R7', 'variable_new not found in the CpuCas01Action constructor')
+        for t in vn[:1]:
+            b = strip(t[3][2])
+            ops = [strip(b[2]), strip(b[3])] if b[0] == 'bin' and b[1] == '*' else []
+            names = sorted(o[2] for o in ops if o[0] == 'var' and o[1] == 'parm')
+            ctx.check(names == ['requested_core', 'speed'], 'R7', 'CpuCas01Action: bound = requested_core x speed', where(c), 'bound = %s' % ex.pretty(b), key='R7|CpuCas01Action|bound')
+            pen = strip(t[3][1])
+            okp = pen[0] == 'bin' and pen[1] == '/' and strip(pen[2]) in (('float', 1.0), ('int', 1)) and strip(pen[3])[0] == 'var' and strip(pen[3])[2] == 'requested_core'
+            ctx.check(okp, 'R7', 'CpuCas01Action: sharing penalty = 1 / requested_core', where(c), 'penalty = %s' % ex.pretty(pen), key='R7|CpuCas01Action|penalty')
+    CC = 'simgrid::kernel::resource::CpuCas01::'
+    nnew = 0
+    for g in sorted([f for f in P.fns.values() if f['q'] in (CC + 'execution_start', CC + 'sleep') and f.get('blocks')], key=lambda f: f['key']):
+        gv = A.view(g)
+        for eid in range(len(g['elems'])):
+            for e in gv.events_of(eid):
+                if e.kind == 'call' and e.q == CA and e.eid == eid:
+                    nnew += 1
+                    sp = strip(e.args[3]) if len(e.args) > 3 else ('none',)
+                    ops = sorted(x[2].rsplit('::', 1)[-1] for x in ex.subterms(sp) if x[0] == 'field' and x[2].rsplit('::', 1)[-1] in ('scale', 'peak'))
+                    ctx.check(sp[0] == 'bin' and sp[1] == '*' and ops == ['peak', 'scale'], 'R7', '%s: the action is created with speed = scale x peak' % g['q'].replace('simgrid::kernel::resource::', ''), where(g, e.line),
+                              'speed = %s' % ex.pretty(sp), key='R7|%s|speed at creation' % g['q'].rsplit('::', 1)[-1])
+                if e.kind == 'call' and e.q.endswith('System::update_variable_bound') and e.eid == eid and g['q'].endswith('execution_start'):
+                    ub = strip(e.args[1])
+                    IN, tgt, _ = lib.dominating_facts(A, g, g['elems'][eid]['x'], with_lines=True, with_preds=True)
+                    facts = IN.get(tgt, ())
+                    smaller = any(a[0] == 'bin' and ((a[1] in ('<', '<=') and strip(a[2]) == ub and 'get_bound' in repr(a[3]) and t_) or (a[1] in ('>', '>=') and strip(a[3]) == ub and 'get_bound' in repr(a[2]) and t_)
+                                                     or (a[1] in ('>=', '>') and strip(a[2]) == ub and 'get_bound' in repr(a[3]) and not t_) or (a[1] in ('<=', '<') and strip(a[3]) == ub and 'get_bound' in repr(a[2]) and not t_))
+                                  for a, t_, l_ in facts)
+                    positive = any(a[0] == 'bin' and strip(a[2]) == ub and strip(a[3]) in (('int', 0), ('float', 0.0)) and ((a[1] == '>' and t_) or (a[1] == '<=' and not t_)) for a, t_, l_ in facts)
+                    ctx.check(smaller and positive, 'R7', 'execution_start: the user bound replaces cores x speed only when positive and smaller', where(g, e.line),
+                              'facts: %s' % sorted(('%s%s' % ('' if t_ else '!', ex.pretty(a))) for a, t_, l_ in facts if ub in list(ex.subterms(a))), key='R7|execution_start|user bound')
+    ctx.require(nnew >= 2, 'R7', 'creations of CpuCas01Action not found (%d)' % nnew)
 
 
 def run(ctx):
@@ -55,7 +224,13 @@ def run(ctx):
         forms[noub[0]] = ub[0].args[1]
 
     def tcp(t):
-        return t[0] == 'bin' and t[1] == '/' and 'cfg_tcp_gamma' in repr(t[2]) and t[3][0] == 'bin' and t[3][1] == '*' and 'lat_current_' in repr(t[3])
+        # gamma / (2 * lat_current_): the literal 2 is part of the documented formula
+        if not (t[0] == 'bin' and t[1] == '/' and 'cfg_tcp_gamma' in repr(t[2]) and t[3][0] == 'bin' and t[3][1] == '*'):
+            return False
+        ops = [strip(t[3][2]), strip(t[3][3])]
+        lit = [o for o in ops if o[0] in ('int', 'float')]
+        lat = [o for o in ops if o[0] == 'field' and o[2].endswith('::lat_current_')]
+        return len(lit) == 1 and lit[0][1] == 2 and len(lat) == 1
 
     def guard(c):
         ats = lib.bool_atoms(c)
@@ -70,5 +245,6 @@ def run(ctx):
     ctx.check(ok_no, 'R3', 'no user bound: bound = (lat > 0 && gamma > 0) ? gamma / (2*lat_current_) : unbounded', where(sv_), ex.pretty(forms.get(True, ('none',)))[:150], key='R3|comm_action_set_variable|no user bound')
     ctx.check(ok_ub, 'R3', 'user bound: bound = (lat > 0 && gamma > 0) ? min(user bound, gamma / (2*lat_current_)) : user bound', where(sv_), ex.pretty(forms.get(False, ('none',)))[:150],
               key='R3|comm_action_set_variable|user bound')
-    ctx.assume('every numeric value (factors, cross-traffic, CPU cores*speed, disk rates) is not decided')
+    run_more(ctx, P, A, sb, sv_)
+    ctx.assume('the numeric values of the factors (callbacks), of the host and disk speeds, WIFI rates and parallel tasks are not decided')
     return EXPLANATION
